@@ -440,6 +440,100 @@ fn x19c_repo_published_follows_delta() {
     std::mem::forget((st, ua, ub, uc));
 }
 
+//------------ C19(c) on laid-out fixtures -------------------------------------
+
+use crate::verif_fix::{base64_sym, letter_of, rsync_hm};
+
+fn file_uri(i: u8) -> uri::Rsync {
+    match i {
+        0 => rsync_hm("rsync://h/m/a/x"),
+        1 => rsync_hm("rsync://h/m/a/y"),
+        _ => rsync_hm("rsync://h/m/a/z"),
+    }
+}
+
+fn count_file(list: &[PublishedFile], i: u8) -> usize {
+    let u = file_uri(i);
+    let mut n = 0;
+    let mut k = 0;
+    while k < list.len() {
+        if list[k].uri == u { n += 1; }
+        k += 1;
+    }
+    std::mem::forget(u);
+    n
+}
+
+/// After a successful publication exchange the list of published objects the
+/// status shows equals the old list with the delta applied: an update
+/// REPLACES the entry for its URI (exactly one entry, the new content), a
+/// withdraw removes it, a publish adds one; the other entry is untouched; the
+/// exchange is recorded as a success at the time of the exchange.
+/// `OP`: 0 update x, 1 withdraw x, 2 publish z; the list holds x and y.
+fn repo_published_follows_delta<const OP: u8>() {
+    let now = sym_now().timestamp();
+    let (cx, cy, cn) = ({ let c: u8 = kani::any(); kani::assume(c < 16); c }, { let c: u8 = kani::any(); kani::assume(c < 16); c }, { let c: u8 = kani::any(); kani::assume(c < 16); c });
+    let mut st = RepoStatus::default();
+    st.published.push(PublishedFile { uri: file_uri(0), base64: base64_sym(cx) });
+    st.published.push(PublishedFile { uri: file_uri(1), base64: base64_sym(cy) });
+    let mut delta = PublishDelta::empty();
+    let h = Hash::from([0u8; 32]);
+    match OP {
+        0 => delta.add_update(rpki::ca::publication::Update::new(None, file_uri(0), base64_sym(cn), h)),
+        1 => delta.add_withdraw(rpki::ca::publication::Withdraw::new(None, file_uri(0), h)),
+        _ => delta.add_publish(rpki::ca::publication::Publish::new(None, file_uri(2), base64_sym(cn))),
+    }
+    st.update_published(http(), delta);
+    // y is untouched
+    assert!(count_file(&st.published, 1) == 1);
+    match OP {
+        0 => {
+            assert!(st.published.len() == 2);
+            assert!(count_file(&st.published, 0) == 1);
+            let u = file_uri(0);
+            let mut i = 0;
+            while i < st.published.len() {
+                if st.published[i].uri == u { assert!(letter_of(&st.published[i].base64) == b'A' + cn); }
+                i += 1;
+            }
+            std::mem::forget(u);
+        }
+        1 => {
+            assert!(st.published.len() == 1);
+            assert!(count_file(&st.published, 0) == 0);
+        }
+        _ => {
+            assert!(st.published.len() == 3);
+            assert!(count_file(&st.published, 0) == 1 && count_file(&st.published, 2) == 1);
+        }
+    }
+    assert!(!exch_failed(&st.last_exchange));
+    assert!(st.last_success == Some(Timestamp::new(now)));
+    kani::cover!(cn != cx);
+    std::mem::forget(st);
+}
+
+// vk: timeout=600; unwindset=memcmp.0:20; flags=--no-assertion-reach-checks; bound=2 published files (x, y) with arbitrary contents (16 letters), delta = one update element; laid-out URI/content fixtures (harness/kani_fix.rs); <[u8]>::eq_ignore_ascii_case loop-free model
+#[kani::proof]
+#[kani::unwind(5)]
+#[kani::stub(rpki::repository::x509::Time::now, stub_now)]
+#[kani::stub(<[u8]>::eq_ignore_ascii_case, crate::verif_fix::eq_ignore_ascii_case_16)]
+fn c19c_repo_published_follows_update() { repo_published_follows_delta::<0>(); }
+
+// vk: tier=thorough; timeout=600; unwindset=memcmp.0:20; flags=--no-assertion-reach-checks; bound=2 published files (x, y) with arbitrary contents (16 letters), delta = one withdraw element; laid-out URI/content fixtures (harness/kani_fix.rs); <[u8]>::eq_ignore_ascii_case loop-free model
+#[kani::proof]
+#[kani::unwind(5)]
+#[kani::stub(rpki::repository::x509::Time::now, stub_now)]
+#[kani::stub(<[u8]>::eq_ignore_ascii_case, crate::verif_fix::eq_ignore_ascii_case_16)]
+fn c19c_repo_published_follows_withdraw() { repo_published_follows_delta::<1>(); }
+
+// vk: tier=thorough; timeout=600; unwindset=memcmp.0:20; flags=--no-assertion-reach-checks; bound=2 published files (x, y) with arbitrary contents (16 letters), delta = one publish element; laid-out URI/content fixtures (harness/kani_fix.rs); <[u8]>::eq_ignore_ascii_case loop-free model
+#[kani::proof]
+#[kani::unwind(5)]
+#[kani::stub(rpki::repository::x509::Time::now, stub_now)]
+#[kani::stub(<[u8]>::eq_ignore_ascii_case, crate::verif_fix::eq_ignore_ascii_case_16)]
+fn c19c_repo_published_follows_publish() { repo_published_follows_delta::<2>(); }
+
 #[cfg(test)]
 #[path = "/verif/.cache/playback/api_ca.rs"]
 mod playback;
